@@ -13,7 +13,7 @@ use std::sync::Mutex;
 use vcommon::evidence::{catch, h64, Violation};
 use vcommon::refscale::PType;
 
-pub const BUILDER_VALUES: usize = 10;
+pub const BUILDER_VALUES: usize = 11;
 
 fn prim(p: TypeDefPrimitive, path: &[&str], docs: &[&str], params: Vec<TypeParameter<PortableForm>>) -> PType {
     Type::new(
@@ -49,6 +49,8 @@ fn builder_value(k: usize, model: &[PType]) -> PType {
         6 => prim(TypeDefPrimitive::U8, &["p"], &[], vec![]),
         7 => prim(TypeDefPrimitive::U8, &[], &[], vec![TypeParameter::new_portable("T".into(), None)]),
         8 => prim(TypeDefPrimitive::U8, &[], &["d", ""], vec![]),
+        // same non-empty path as value 6, different definition
+        10 => prim(TypeDefPrimitive::Bool, &["p"], &[], vec![]),
         // forward reference two ahead of the id this value will get (dangling until two more values follow)
         _ => Type::new(
             Path::from_segments_unchecked(["Fwd".to_string()]),
@@ -59,7 +61,7 @@ fn builder_value(k: usize, model: &[PType]) -> PType {
     }
 }
 
-const VALUE_NAMES: [&str; BUILDER_VALUES] = ["u8", "bool", "seq(0)", "composite{me: next_type_id()}", "tuple(last id)", "u8+docs[d]", "u8+path[p]", "u8+param[T]", "u8+docs[d,\"\"]", "composite{ahead: next_type_id()+2, next: next_type_id()+1}"];
+const VALUE_NAMES: [&str; BUILDER_VALUES] = ["u8", "bool", "seq(0)", "composite{me: next_type_id()}", "tuple(last id)", "u8+docs[d]", "u8+path[p]", "u8+param[T]", "u8+docs[d,\"\"]", "composite{ahead: next_type_id()+2, next: next_type_id()+1}", "bool+path[p]"];
 
 /// replay a builder history against the Vec model; returns Debug key and first failure
 pub fn eval_builder(hist: &[u8]) -> (String, Option<(String, String)>) {
